@@ -92,9 +92,11 @@ class Profile(object):
 
 DEFECTS = {
     'create_rp': ['missing-parent', 'self-parent', 'dup-name', 'dup-uuid'],
-    'put_inventories': ['in-use', 'unknown-class', 'stale-gen', 'bad-schema'],
-    'post_inventory': ['exists', 'unknown-class'],
-    'put_inventory': ['no-inventory', 'unknown-class', 'stale-gen'],
+    'put_inventories': ['in-use', 'unknown-class', 'stale-gen', 'bad-schema',
+                        'reserved-exceeds-total'],
+    'post_inventory': ['exists', 'unknown-class', 'reserved-exceeds-total'],
+    'put_inventory': ['no-inventory', 'unknown-class', 'stale-gen',
+                      'reserved-exceeds-total'],
     'delete_inventory': ['in-use', 'no-inventory'],
     'put_rp_traits': ['unknown-trait', 'stale-gen'],
     'put_rp_aggregates': ['stale-gen'],
@@ -106,7 +108,8 @@ DEFECTS = {
                          'stale-consumer-gen'],
     'reshaper': ['stale-gen', 'unknown-provider-inv', 'unknown-provider',
                  'unknown-class', 'missing-inventory', 'over-capacity',
-                 'stale-consumer-gen', 'empties-used-provider'],
+                 'stale-consumer-gen', 'empties-used-provider',
+                 'reserved-exceeds-total'],
 }
 
 MIN_VERSION = {
